@@ -352,6 +352,7 @@ func unfoldAlias(c *simkit.Choices, x *simkit.Ctx) *simkit.Violation {
 		}
 		off := 0
 		for i, d := range docs {
+			x.Alive()
 			failedDoc = i
 			ptr, _, get := te.NewTarget()
 			if sc.SameTarget && len(keep) > 0 {
